@@ -19,20 +19,21 @@ import (
 )
 
 type Run struct {
-	W       *World
-	M       *Model
-	Sc      *Scenario
-	Obs     *Obs // last full observation (nil: stale)
-	VL      VList
-	seenSig map[string]bool
-	Shapes  map[string]bool // command shape × outcome
-	States  map[string]bool // distinct model states at quiescent points
-	Effects int             // mutations that took effect
-	Faults  int             // faults that fired
-	StepNo  int
-	Cmds    int
-	Resyncs int
-	agents  []string
+	W        *World
+	M        *Model
+	Sc       *Scenario
+	Obs      *Obs // last full observation (nil: stale)
+	VL       VList
+	seenSig  map[string]bool
+	Shapes   map[string]bool // command shape × outcome
+	States   map[string]bool // distinct model states at quiescent points
+	Effects  int             // mutations that took effect
+	Faults   int             // faults that fired
+	StepNo   int
+	Cmds     int
+	Resyncs  int
+	agents   []string
+	violScen [][]Step // crash sweeps: the scenario demonstrating each violation
 	// options
 	NoObs bool // skip per-step observation (throughput runs)
 }
